@@ -67,10 +67,11 @@ type IssuerFromOption func(c *issuerConfig)
 // The same rules apply where the first successful host is returned.
 func WithIssuerFromCustomHeaders(headers ...string) IssuerFromOption {
 	return func(c *issuerConfig) {
+		canonical := make([]string, len(headers))
 		for i, h := range headers {
-			headers[i] = http.CanonicalHeaderKey(h)
+			canonical[i] = http.CanonicalHeaderKey(h)
 		}
-		c.headers = headers
+		c.headers = canonical
 	}
 }
 
